@@ -102,6 +102,9 @@ def def_options(tier, is_root, has_ovld_base, kind=None):
             opts.append([(a, marked), (b, False)])
             if not is_root and tier != "quick":
                 opts.append([(a, False), (b, True)])
+        if not is_root and (a, b) in (("int", "str"), ("wrap", "int"), ("int", "int")):
+            # every definition marked (the mark on the later ones adds nothing: they join the same overload)
+            opts.append([(a, True), (b, True)])
     return opts
 
 
@@ -261,9 +264,8 @@ def effective_sets(spec):
                 eff[name] = ("ovld", _overlay([], ms))
             continue
         first_marked = defs[0][1]
-        later_marked = any(m for _, m in defs[1:])
-        if not first_marked or later_marked:
-            eff[name] = None
+        if not first_marked:
+            eff[name] = None  # (a mark on a later definition only: unspecified)
             continue
         merged = []
         for b, e in layers:
@@ -498,6 +500,6 @@ def main(tier):
              "outcome table whether or not the earlier classes that are not its ancestors were defined (the program is rebuilt with its "
              "ancestors only); a second 5-class shape: overloaded root, unmarked plain mixin, marked mixin, a class extending root + plain "
              "mixin and an independent sibling joining all three; non-trivial = classes judged by (ii)",
-        assumptions=["abstains (only (i) and (iii) apply) for: unmarked definitions in a subclass, classes without own definition under several "
+        assumptions=["abstains (only (i), (iii), (iv) apply) for: unmarked definitions in a subclass, classes without own definition under several "
                      "bases, a mark on a later definition only, two bases contributing different functions for one signature"],
     )
